@@ -1609,6 +1609,16 @@ func main() {
 		switch os.Args[2] {
 		case "build":
 			workerBuild(os.Args[3], len(os.Args) > 4 && os.Args[4] == "1")
+		case "buildpq":
+			workerBuildPQ(os.Args[3])
+		case "pq":
+			from, _ := strconv.Atoi(os.Args[6])
+			if len(os.Args) > 7 {
+				if n, err := strconv.Atoi(os.Args[7]); err == nil && n > 0 {
+					queryTimeout = time.Duration(n) * time.Second
+				}
+			}
+			workerPQ(os.Args[3], os.Args[4], os.Args[5], from)
 		case "readers":
 			seed, _ := strconv.ParseUint(os.Args[5], 10, 64)
 			n, _ := strconv.Atoi(os.Args[6])
@@ -1647,8 +1657,25 @@ func main() {
 		"e2e stream: one case = one mutation (byte xor 0xFF / xor one bit / set 0 / truncation) of one stored file of a 2-log-segment + 1-metrics-segment store, " +
 		"8 queries in a fresh worker process. seq stream: one case = one damaged block-summary file (.bsu: truncations at / inside every record, header fields) + one seeded SEQUENCE of 5-9 accesses " +
 		"of different kinds (persistent-query path, bulk timestamp / record readers, GetLoadSsm, memory rebalance evict / load, ordinary, repeated and time-bounded queries; every kind first in turn) in ONE worker process. " +
+		"pq stream: one case = one damaged persistent-query match-result file (.pqmr of one of four persistent queries: every cut at / inside the last record, cuts in the earlier records, one replaced byte per field of every record; " +
+		"thorough: every truncation length, five values of every byte) + the query it belongs to asked twice in a worker process. " +
 		"non-trivial = the mutation changes the file; distinct by (file, mutation, read / access sequence)")
 	r := vhlib.NewRng(cfg.Seed)
+	// the persistent-query stream has its own stores and its own random stream (the other streams' cases do not move);
+	// it runs beside the others
+	pqDone := make(chan struct{})
+	go func() {
+		defer close(pqDone)
+		if !onlySeq && os.Getenv("C18_SKIP") != "pq" { // C18_SKIP=pq: exploration aid (timing), never set by ./check
+			runPQ(cfg, sum, vhlib.NewRng(cfg.Seed^0x70716d72))
+		}
+	}()
+	if os.Getenv("C18_ONLY") == "pq" { // exploration: only the persistent-query stream
+		<-pqDone
+		sum.Notes = append(sum.Notes, pqNotes...)
+		sum.Write(cfg.Out)
+		return
+	}
 	if onlySeq { // exploration: only the access-sequence stream (the forks keep the random streams aligned)
 		r.Fork()
 		r.Fork()
@@ -1659,6 +1686,8 @@ func main() {
 		runPoolTrace(cfg, sum, r.Fork())
 	}
 	runE2E(cfg, sum, r.Fork())
+	<-pqDone
+	sum.Notes = append(sum.Notes, pqNotes...)
 	sum.Write(cfg.Out)
 }
 
